@@ -67,6 +67,16 @@ func main() {
 			w.Add(t, sc)
 		}
 		w.Close()
+		// what the broker workers did with every message they received during those scenarios
+		wr := &cf.Writer{Dir: *out, Prefix: "cases_recv", Imports: "From SV Require Import C04.Model C04.Corr.", CaseType: "rcase", MismatchFn: "mismatches_recv", ShardSize: 5000}
+		seen := map[recvObs]bool{}
+		for _, r := range recvLog {
+			k := recvObs{Flags: r.Flags, Closing: r.Closing, Retrying: r.Retrying, Obs: r.Obs}
+			wr.Add(cf.App("mkRCase", cf.Z(int64(r.Flags)), cf.Bool(r.Closing), cf.Bool(r.Retrying), cf.Z(int64(r.Obs))),
+				cf.Sidecar{Case: map[string]interface{}{"flags": r.Flags, "closing": r.Closing, "retrying": r.Retrying, "did": r.Obs, "n": len(seen)}, Kind: "recv", Nontrivial: !seen[k]})
+			seen[k] = true
+		}
+		wr.Close()
 	}
 	fmt.Fprintf(os.Stderr, "c04corr: monitor failures: %d\n", fails)
 }
